@@ -22,6 +22,8 @@ pub(crate) struct Scopes {
     pub(crate) functions: Arc<RefCell<Vec<Arc<RefCell<BTreeMap<Identifier, SassFunction>>>>>>,
     len: Arc<Cell<usize>>,
     pub last_variable_index: Option<(Identifier, usize)>,
+    #[cfg(grass_verif)]
+    verif_uid: usize,
 }
 
 impl Scopes {
@@ -32,6 +34,8 @@ impl Scopes {
             functions: Arc::new(RefCell::new(vec![Arc::new(RefCell::new(BTreeMap::new()))])),
             len: Arc::new(Cell::new(1)),
             last_variable_index: None,
+            #[cfg(grass_verif)]
+            verif_uid: crate::verif::new_stack(0, 1),
         }
     }
 
@@ -49,6 +53,8 @@ impl Scopes {
             )),
             len: Arc::new(Cell::new(self.len())),
             last_variable_index: self.last_variable_index,
+            #[cfg(grass_verif)]
+            verif_uid: crate::verif::new_stack(self.verif_uid, self.len()),
         }
     }
 
@@ -69,6 +75,11 @@ impl Scopes {
         debug_assert_eq!(self.len(), (*self.variables).borrow().len());
 
         match self.last_variable_index {
+            #[cfg(grass_verif)]
+            Some((prev_name, idx)) if prev_name == name => {
+                self.verif_lookup("find", name, Some(idx), true);
+                return Some(idx);
+            }
             Some((prev_name, idx)) if prev_name == name => return Some(idx),
             _ => {}
         };
@@ -76,10 +87,14 @@ impl Scopes {
         for (idx, scope) in (*self.variables).borrow().iter().enumerate().rev() {
             if (**scope).borrow().contains_key(&name) {
                 self.last_variable_index = Some((name, idx));
+                #[cfg(grass_verif)]
+                self.verif_lookup("find", name, Some(idx), false);
                 return Some(idx);
             }
         }
 
+        #[cfg(grass_verif)]
+        self.verif_lookup("find", name, None, false);
         None
     }
 
@@ -100,6 +115,8 @@ impl Scopes {
         (*self.functions)
             .borrow_mut()
             .push(Arc::new(RefCell::new(BTreeMap::new())));
+        #[cfg(grass_verif)]
+        self.verif_struct("enter");
     }
 
     pub fn exit_scope(&mut self) {
@@ -110,6 +127,8 @@ impl Scopes {
         (*self.mixins).borrow_mut().pop();
         (*self.functions).borrow_mut().pop();
         self.last_variable_index = None;
+        #[cfg(grass_verif)]
+        self.verif_struct("exit");
     }
 }
 
@@ -129,6 +148,8 @@ impl Scopes {
         debug_assert_eq!(self.len(), (*self.variables).borrow().len());
         let last_idx = self.len() - 1;
         self.last_variable_index = Some((name, last_idx));
+        #[cfg(grass_verif)]
+        self.verif_insert("insl", last_idx, name, false, false);
         (*(*self.variables).borrow_mut()[last_idx])
             .borrow_mut()
             .insert(name, v)
@@ -139,6 +160,8 @@ impl Scopes {
 
         match self.last_variable_index {
             Some((prev_name, idx)) if prev_name == name.node => {
+                #[cfg(grass_verif)]
+                self.verif_lookup("get", name.node, Some(idx), true);
                 return Ok((*(*self.variables).borrow()[idx]).borrow()[&name.node].clone());
             }
             _ => {}
@@ -148,12 +171,16 @@ impl Scopes {
             match (**scope).borrow().get(&name.node) {
                 Some(var) => {
                     self.last_variable_index = Some((name.node, idx));
+                    #[cfg(grass_verif)]
+                    self.verif_lookup("get", name.node, Some(idx), false);
                     return Ok(var.clone());
                 }
                 None => continue,
             }
         }
 
+        #[cfg(grass_verif)]
+        self.verif_lookup("get", name.node, None, false);
         Err(("Undefined variable.", name.span).into())
     }
 
@@ -237,5 +264,69 @@ impl Scopes {
         }
 
         GLOBAL_FUNCTIONS.contains_key(name.as_str())
+    }
+}
+
+#[cfg(grass_verif)]
+impl Scopes {
+    fn verif_id(&self) -> usize {
+        self.verif_uid
+    }
+
+    fn verif_in(&self, name: Identifier) -> String {
+        let mut s = String::from("[");
+        for (idx, scope) in (*self.variables).borrow().iter().enumerate() {
+            if (**scope).borrow().contains_key(&name) {
+                if s.len() > 1 {
+                    s.push(',');
+                }
+                s.push_str(&idx.to_string());
+            }
+        }
+        s.push(']');
+        s
+    }
+
+    pub(crate) fn verif_lookup(&self, ev: &str, name: Identifier, r: Option<usize>, cached: bool) {
+        if crate::verif::on() {
+            crate::verif::emit(format!(
+                "{{\"e\":\"{}\",\"s\":{},\"n\":\"{}\",\"r\":{},\"in\":{},\"c\":{},\"len\":{}}}",
+                ev,
+                self.verif_id(),
+                crate::verif::esc(name.as_str()),
+                r.map_or(-1, |i| i as i64),
+                self.verif_in(name),
+                cached,
+                self.len()
+            ));
+        }
+    }
+
+    pub(crate) fn verif_struct(&self, ev: &str) {
+        if crate::verif::on() {
+            crate::verif::emit(format!(
+                "{{\"e\":\"{}\",\"s\":{},\"len\":{},\"vlen\":{}}}",
+                ev,
+                self.verif_id(),
+                self.len(),
+                (*self.variables).borrow().len()
+            ));
+        }
+    }
+
+    pub(crate) fn verif_insert(&self, ev: &str, idx: usize, name: Identifier, global: bool, semi: bool) {
+        if crate::verif::on() {
+            crate::verif::emit(format!(
+                "{{\"e\":\"{}\",\"s\":{},\"n\":\"{}\",\"i\":{},\"in\":{},\"g\":{},\"semi\":{},\"len\":{}}}",
+                ev,
+                self.verif_id(),
+                crate::verif::esc(name.as_str()),
+                idx,
+                self.verif_in(name),
+                global,
+                semi,
+                self.len()
+            ));
+        }
     }
 }
